@@ -284,6 +284,8 @@ pub fn run(run: &Run) {
     cfg.mints = false;
     cfg.faucets = true;
     cfg.overpay = true;
+    // stake transactions, in order and not (a block holding one that registered nothing is a restart point of its own kind)
+    cfg.stakes = true;
     cfg.max_txs_per_block = 1;
     cfg.seal_actions = vec![None, Some(action_dest(3))];
     let mut cont = cfg.clone();
